@@ -665,6 +665,39 @@ def log_taylor_cached(x, prec):
     s = (s0+s1) << 1
     return log_a + s
 
+def mpf_round_approx(v, err_bits, prec, rnd):
+    """
+    Round the nonzero approximation v, whose relative error is known to be
+    smaller than 2^-err_bits, to prec bits. With a directed rounding mode
+    the approximation is first moved by the error bound in the direction
+    of rounding, so that the result is a rigorous bound for the exact value
+    (as interval arithmetic requires) and not merely the directed rounding
+    of an approximation that may lie on the wrong side of it.
+    """
+    if rnd == round_nearest:
+        return mpf_pos(v, prec, rnd)
+    sign, man, exp, bc = v
+    if rnd == round_ceiling or rnd == [round_up, round_down][sign]:
+        eps = (0, MPZ_ONE, exp+bc-err_bits, 1)
+    else:
+        eps = (1, MPZ_ONE, exp+bc-err_bits, 1)
+    return mpf_add(v, eps, prec, rnd)
+
+def round_fixed_approx(m, err, wp, prec, rnd):
+    """
+    Convert the fixed-point approximation m*2^-wp, whose absolute error is at
+    most err units in the last place, to a floating-point number. With a
+    directed rounding mode m is first moved by err in the direction of
+    rounding, so that the result is a rigorous bound for the exact value.
+    """
+    if rnd != round_nearest:
+        if rnd == round_ceiling or (rnd == round_up and m > 0) or \
+            (rnd == round_down and m < 0):
+            m += err
+        else:
+            m -= err
+    return from_man_exp(m, -wp, prec, rnd)
+
 def mpf_log(x, prec, rnd=round_fast):
     """
     Compute the natural logarithm of the mpf value x. If x is negative,
@@ -686,7 +719,7 @@ def mpf_log(x, prec, rnd=round_fast):
     if man == 1:
         if not exp:
             return fzero
-        return from_man_exp(exp*ln2_fixed(wp), -wp, prec, rnd)
+        return round_fixed_approx(exp*ln2_fixed(wp), abs(exp)+1, wp, prec, rnd)
     mag = exp+bc
     abs_mag = abs(mag)
     #------------------------------------------------------------------
@@ -729,6 +762,9 @@ def mpf_log(x, prec, rnd=round_fast):
         m = log_taylor_cached(lshift(man, wp-bc), wp)
         if mag:
             m += mag*ln2_fixed(wp)
+        # Every truncated series term (fewer than wp/8) and every multiple
+        # of log(2) contributes at most one unit of error
+        err = abs_mag + (wp >> 3) + 16
     else:
         optimal_mag = -wp//LOG_AGM_MAG_PREC_RATIO
         n = optimal_mag - mag
@@ -736,7 +772,9 @@ def mpf_log(x, prec, rnd=round_fast):
         wp += (-optimal_mag)
         m = -log_agm(to_fixed(x, wp), wp)
         m -= n*ln2_fixed(wp)
-    return from_man_exp(m, -wp, prec, rnd)
+        # The AGM is accurate to a few units of the original precision
+        err = (abs(n) + 16) << (-optimal_mag)
+    return round_fixed_approx(m, err, wp, prec, rnd)
 
 def mpf_log_hypot(a, b, prec, rnd):
     """
@@ -904,11 +942,14 @@ def mpf_atan2(y, x, prec, rnd=round_fast):
         if y == fzero:
             return fzero
         return mpf_shift(mpf_pi(prec, rnd), -1)
-    tquo = mpf_atan(mpf_div(y, x, prec+4), prec+4)
+    # The quotient, its arctangent and pi are each accurate to about
+    # 2^-wp (relative); the angle has modulus >= pi/2 when pi is added,
+    # so the total relative error is well below 2^(4-wp)
+    wp = prec + 20
+    tquo = mpf_atan(mpf_div(y, x, wp), wp)
     if xsign:
-        return mpf_add(mpf_pi(prec+4), tquo, prec, rnd)
-    else:
-        return mpf_pos(tquo, prec, rnd)
+        tquo = mpf_add(mpf_pi(wp), tquo, wp)
+    return mpf_round_approx(tquo, wp-4, prec, rnd)
 
 def mpf_asin(x, prec, rnd=round_fast):
     sign, man, exp, bc = x
@@ -1159,7 +1200,11 @@ def mpf_exp(x, prec, rnd=round_fast):
         # TODO: the best cutoff depends on both x and the precision.
         if prec > 600 and exp >= 0:
             # Need about log2(exp(n)) ~= 1.45*mag extra precision
-            e = mpf_e(wp+int(1.45*mag))
+            if sign:
+                ernd = reciprocal_rnd[rnd]
+            else:
+                ernd = rnd
+            e = mpf_e(wp+int(1.45*mag), ernd)
             return mpf_pow_int(e, man<<exp, prec, rnd)
         if mag < -wp:
             return mpf_perturb(fone, sign, prec, rnd)
@@ -1186,7 +1231,10 @@ def mpf_exp(x, prec, rnd=round_fast):
                 t = man >> (-offset)
             n = 0
         man = exp_basecase(t, wp)
-        return from_man_exp(man, n-wp, prec, rnd)
+        # The fixed-point exponential carries an error of up to about
+        # 2*sqrt(wp) units in the last place (measured: < 2^6 up to the
+        # exp_basecase cutoff); wp = prec+14 leaves room for a 2^8 bound
+        return mpf_round_approx(from_man_exp(man, n-wp), wp-8, prec, rnd)
     if not exp:
         return fone
     if x == fninf:
